@@ -1023,7 +1023,9 @@ def clear_config(clear_constants=False):
     saved_constants = _CONSTANTS.copy()
     _CONSTANTS.clear()  # Clear then redefine constants (re-adding bindings).
     for name, value in saved_constants.items():
-      constant(name, value)
+      # Constants defined in interactive mode may shadow one another, so they
+      # are restored directly (`constant` would reject them as duplicates).
+      _CONSTANTS[name] = value
   _IMPORTS.clear()
   with _OPERATIVE_CONFIG_LOCK:
     _OPERATIVE_CONFIG.clear()
